@@ -10,7 +10,17 @@ use indicatif::{MultiProgress, ProgressBar, ProgressDrawTarget, ProgressFinish, 
 use std::fmt::Write;
 use std::panic::{catch_unwind, AssertUnwindSafe};
 
-const TEMPLATES: [&str; 5] = ["{prefix}|{msg}", "a\tb {msg}", "{custom}\t{msg}|{prefix}", "\t{msg}\t", "{msg}\n\tx{prefix}"];
+// the last two: a stray "{ " (brace + blank) that the parser keeps as literal text and then joins with the literal
+// behind it, and escaped braces around a tab (round 11: literals glued together without a second look for tabs)
+const TEMPLATES: [&str; 7] = [
+    "{prefix}|{msg}",
+    "a\tb {msg}",
+    "{custom}\t{msg}|{prefix}",
+    "\t{msg}\t",
+    "{msg}\n\tx{prefix}",
+    "{ s\t{msg}\ty{ \t",
+    "a{{\tb}}\t{msg}",
+];
 const WIDTHS: [usize; 5] = [0, 1, 2, 8, 13];
 
 fn text(rng: &mut Rng, tag: &str) -> String {
@@ -50,9 +60,13 @@ fn expand(s: &str, w: usize) -> String {
 fn model_lines(tmpl: usize, msg: &str, prefix: &str, w: usize) -> Vec<String> {
     let t = TEMPLATES[tmpl];
     let rendered = expand(t, w)
+        .replace("{{", "\u{1}")
+        .replace("}}", "\u{2}")
         .replace("{msg}", &expand(msg, w))
         .replace("{prefix}", &expand(prefix, w))
-        .replace("{custom}", &expand("c\tk", w));
+        .replace("{custom}", &expand("c\tk", w))
+        .replace('\u{1}', "{")
+        .replace('\u{2}', "}");
     let mut lines: Vec<String> = rendered.split('\n').map(|l| l.to_string()).collect();
     if lines.last().map(|l| l.is_empty()).unwrap_or(false) {
         lines.pop();
